@@ -67,9 +67,14 @@ def correspondence(payload):
 
 
 # ---------------------------------------------------------------- call counts
+class BudgetExceeded(BaseException):
+    """raised from inside the counted optimize() when the call budget is used up (BaseException: no rule's `except` swallows it)"""
+
+
 class Counter:
-    def __init__(self):
+    def __init__(self, limit=None):
         self.n = 0
+        self.limit = limit
         self.orig = PO.optimize
 
     def __enter__(self):
@@ -77,6 +82,8 @@ class Counter:
 
         def counted(p):
             c.n += 1
+            if c.limit is not None and c.n > c.limit:
+                raise BudgetExceeded()
             return c.orig(p)
         PO.optimize = counted
         return self
@@ -134,19 +141,28 @@ def count_search(payload, fails):
     for n in sizes:
         for name, t in families(n).items():
             sz = size(t)
-            with Counter() as c:
+            over = False
+            with Counter(limit=4 * sz * sz + 400) as c:      # stop counting at twice the envelope: an exponential blow-up never returns
                 try:
                     optimize(t)
                     err = None
+                except BudgetExceeded:
+                    err, over = None, True
                 except RecursionError:
                     err = "RecursionError"
                 except Exception as e:  # noqa: BLE001
                     err = f"{type(e).__name__}: {e}"
-            rows.append({"family": name, "nodes": sz, "optimize_calls": c.n, "error": err})
+            rows.append({"family": name, "nodes": sz, "optimize_calls": c.n, "error": err, "aborted_over_budget": over})
             if err:
                 fails.append({"kind": "optimize raised", "family": name, "nodes": sz, "error": err})
-            elif c.n > 2 * sz * sz + 200:
-                fails.append({"kind": "optimize() call count exceeds the quadratic envelope 2*n^2+200", "family": name, "nodes": sz, "calls": c.n})
+            elif over or c.n > 2 * sz * sz + 200:
+                fails.append({"kind": "optimize() call count exceeds the quadratic envelope 2*n^2+200" + (" (counting stopped at twice the envelope)" if over else ""),
+                              "family": name, "nodes": sz, "calls": c.n, "smallest_member_of_family": repr(families(12)[name])[:300]})
+                if over:
+                    break       # larger members of an exponential family are not attempted
+        else:
+            continue
+        break
     return rows
 
 
@@ -257,4 +273,5 @@ def replay(payload):
     return {"fails": True, "input": payload["replay"].get("input")}
 
 
-main({"correspondence": correspondence, "search": search, "replay": replay})
+if __name__ == "__main__":
+    main({"correspondence": correspondence, "search": search, "replay": replay})
